@@ -11,7 +11,7 @@ FOUNDBY = {
  'F10': 'reading', 'F11': 'reading', 'F12': 'reading (sibling arms)', 'F13': 'reading (sibling arms)', 'F14': 'reading (dead code); rule A5-complete reports it',
  'F15': 'rule A4b (Ints guard)', 'F16': 'rule A4 (storage)', 'F17': 'rule (mirror/identity use)', 'F18': 'reading while writing rule B1; rule B1-signature reports it',
  'F19': 'sub-agent (C03)', 'F21': 'sub-agent (C03)', 'F22': 'reading while writing the C36 rules', 'F23': 'reading while writing the C36 rules',
- 'F24': 'rule N3 (written after seed C18-3)', 'F25': 'sub-agent (C19)', 'F26': 'sub-agent (C39)', 'F27': 'analysis of seed C39-2 + sub-agent (C39)', 'F28': 'sub-agent (C27)', 'F29': 'sub-agent (C05, round 2); rule G1 written with the fix', 'F33': 'reading fast/range.go after F29; rule G1 written with the fix', 'F34': 'reading fast/range.go; rule A4-ints-guard extended to local places with the fix', 'F30': 'sub-agent (C05, round 2); rule S2 written with the fix', 'F31': 'sub-agent (C05, round 2); rule J2 corrected with the fix (it had encoded the defective loop shape as the expected one)', 'F35': 'sub-agent (C01, round 2); the identity table of rule A7 had the same mistake and was corrected', 'F36': 'sub-agent (C01, round 2); rule A7 extended to compile-time rejections', 'F37': 'sub-agent (C06, round 2); rule E3 written with the fix', 'F38': 'sub-agent (C06 and C07, round 2); rule R2 written with the fix', 'F39': 'sub-agents (C06, C14, round 2); rule V2 written with the fix', 'F40': 'sub-agent (C02, round 2); rule M1 written with the fix', 'F41': 'sub-agent (C02, round 2); rule A7s written with the fix', 'F42': 'sub-agent (C08, round 2); rule B2 written with the fix', 'F43': 'sub-agent (C08, round 2); rule B3 written with the fix', 'F44': 'sub-agent (C14, round 2); NB1 corrected (it had encoded the one-slot test) and PE2 written with the fix', 'F45': 'sub-agent (C10, round 2, with the race detector); rule H2 written afterwards reports exactly these five functions', 'F46': 'sub-agent (C26, round 2); the transition table of rule R6 lacked the same self-loop and was completed', 'F47': 'sub-agent (C26, round 2); rule R9 written with the fix', 'F48': 'sub-agents (C18, C37, C39, round 2); rule X8b written with the fix', 'F49': 'sub-agents (C37, C39, round 2); rule L5c written with the fix', 'F58': 'sub-agents (C03, C04, rounds 2 and 3); rule A2u written first, it reports exactly this site among 122', 'F57': 'sub-agents (C04, rounds 2 and 3); rule K7 written with the fix', 'F55': 'sub-agent (C10, round 3); rules S5 and N7 written with the fix', 'F56': 'rule N7 (written for F55) on the unchanged tree; reproduced, then fixed', 'F54': 'sub-agent (C10, round 3); direct-invocation clause of rule E5 written with the fix', 'F53': 'sub-agents (C08, rounds 2 and 3); rule B4 written with the fix', 'F52': 'sub-agent (C05, round 3); rule Y8 written with the fix', 'F51': 'sub-agent (C02, round 3); rule P5 written with the fix', 'F50': 'sub-agent (C29, round 2); generic rule Z1 written with the fix reports exactly these two sites in the repository', 'F32': 'reading fast/range.go while confirming a sub-agent report (C05); rule A3-depth-loop written with the fix',
+ 'F24': 'rule N3 (written after seed C18-3)', 'F25': 'sub-agent (C19)', 'F26': 'sub-agent (C39)', 'F27': 'analysis of seed C39-2 + sub-agent (C39)', 'F28': 'sub-agent (C27)', 'F29': 'sub-agent (C05, round 2); rule G1 written with the fix', 'F33': 'reading fast/range.go after F29; rule G1 written with the fix', 'F34': 'reading fast/range.go; rule A4-ints-guard extended to local places with the fix', 'F30': 'sub-agent (C05, round 2); rule S2 written with the fix', 'F31': 'sub-agent (C05, round 2); rule J2 corrected with the fix (it had encoded the defective loop shape as the expected one)', 'F35': 'sub-agent (C01, round 2); the identity table of rule A7 had the same mistake and was corrected', 'F36': 'sub-agent (C01, round 2); rule A7 extended to compile-time rejections', 'F37': 'sub-agent (C06, round 2); rule E3 written with the fix', 'F38': 'sub-agent (C06 and C07, round 2); rule R2 written with the fix', 'F39': 'sub-agents (C06, C14, round 2); rule V2 written with the fix', 'F40': 'sub-agent (C02, round 2); rule M1 written with the fix', 'F41': 'sub-agent (C02, round 2); rule A7s written with the fix', 'F42': 'sub-agent (C08, round 2); rule B2 written with the fix', 'F43': 'sub-agent (C08, round 2); rule B3 written with the fix', 'F44': 'sub-agent (C14, round 2); NB1 corrected (it had encoded the one-slot test) and PE2 written with the fix', 'F45': 'sub-agent (C10, round 2, with the race detector); rule H2 written afterwards reports exactly these five functions', 'F46': 'sub-agent (C26, round 2); the transition table of rule R6 lacked the same self-loop and was completed', 'F47': 'sub-agent (C26, round 2); rule R9 written with the fix', 'F48': 'sub-agents (C18, C37, C39, round 2); rule X8b written with the fix', 'F49': 'sub-agents (C37, C39, round 2); rule L5c written with the fix', 'F59': 'sub-agents (C08, rounds 2 and 3); rule I2 written with the fix', 'F58': 'sub-agents (C03, C04, rounds 2 and 3); rule A2u written first, it reports exactly this site among 122', 'F57': 'sub-agents (C04, rounds 2 and 3); rule K7 written with the fix', 'F55': 'sub-agent (C10, round 3); rules S5 and N7 written with the fix', 'F56': 'rule N7 (written for F55) on the unchanged tree; reproduced, then fixed', 'F54': 'sub-agent (C10, round 3); direct-invocation clause of rule E5 written with the fix', 'F53': 'sub-agents (C08, rounds 2 and 3); rule B4 written with the fix', 'F52': 'sub-agent (C05, round 3); rule Y8 written with the fix', 'F51': 'sub-agent (C02, round 3); rule P5 written with the fix', 'F50': 'sub-agent (C29, round 2); generic rule Z1 written with the fix reports exactly these two sites in the repository', 'F32': 'reading fast/range.go while confirming a sub-agent report (C05); rule A3-depth-loop written with the fix',
 }
 
 def findings_table():
